@@ -89,6 +89,7 @@ type input struct {
 	Lazy    bool  `json:"lazy,omitempty"`
 	Limit   int64 `json:"limit,omitempty"`
 	Reqs    int   `json:"reqs,omitempty"`  // concurrent requests (default 1)
+	Immediate int `json:"immediate,omitempty"` // teardown: series the store delivers before the in-flight one
 	// sched / stress: threads of pool operations (Put index = k-th slice the thread still holds)
 	Threads [][]pop `json:"threads,omitempty"`
 	Sched   []int   `json:"sched,omitempty"` // sched: thread making the next step
@@ -260,6 +261,55 @@ func facts(repo string, w io.Writer) error {
 		return err
 	}
 	fmt.Fprint(w, coqStrList("newAsyncRespSetCloseCalls", ac))
+	// the statements of the two Close methods, in source order (the wait for the receive goroutine is a
+	// channel receive in one of them, so calls alone would not show it)
+	for _, cm := range []struct{ fn, name string }{{"lazyRespSet.Close", "lazyCloseStmts"}, {"eagerRespSet.Close", "eagerCloseStmts"}} {
+		fd, err := s4.FindFunc(cm.fn)
+		if err != nil {
+			return err
+		}
+		var render func(st ast.Stmt) (string, error)
+		render = func(st ast.Stmt) (string, error) {
+			switch x := st.(type) {
+			case *ast.ExprStmt:
+				return s4.ExprString(x.X), nil
+			case *ast.AssignStmt:
+				var l, r []string
+				for _, e := range x.Lhs {
+					l = append(l, s4.ExprString(e))
+				}
+				for _, e := range x.Rhs {
+					r = append(r, s4.ExprString(e))
+				}
+				return strings.Join(l, ", ") + " " + x.Tok.String() + " " + strings.Join(r, ", "), nil
+			case *ast.IfStmt:
+				if x.Init != nil || x.Else != nil {
+					return "", fmt.Errorf("srcfacts: %s: if with init/else not supported", cm.fn)
+				}
+				var in []string
+				for _, b := range x.Body.List {
+					t, err := render(b)
+					if err != nil {
+						return "", err
+					}
+					in = append(in, t)
+				}
+				return "if " + s4.ExprString(x.Cond) + " { " + strings.Join(in, "; ") + " }", nil
+			case *ast.DeferStmt:
+				return "defer " + s4.ExprString(x.Call), nil
+			}
+			return "", fmt.Errorf("srcfacts: %s: statement %T not supported", cm.fn, st)
+		}
+		var stmts []string
+		for _, st := range fd.Body.List {
+			t, err := render(st)
+			if err != nil {
+				return err
+			}
+			stmts = append(stmts, t)
+		}
+		fmt.Fprint(w, coqStrList(cm.name, stmts))
+	}
 	aevs, err := s4.CallOrder("newAsyncRespSet")
 	if err != nil {
 		return err
@@ -364,6 +414,8 @@ func run(raw json.RawMessage) (common.Case, error) {
 		}
 		c.Nontrivial = in.MaxTot > 0 && len(ops) >= 3
 		return c, nil
+	case "teardown":
+		return runTeardown(in)
 	case "sched":
 		return runSched(in)
 	case "stress":
@@ -509,6 +561,144 @@ func run(raw json.RawMessage) (common.Case, error) {
 		return c, nil
 	}
 	return c, fmt.Errorf("bad kind %q", in.Kind)
+}
+
+// ---- early teardown of a sharded request while a message is in flight ---------------------------
+
+// tdStream delivers `immediate` series at once. The next Recv is a message in flight when the
+// request is torn down: it waits until the stream's context is cancelled (the first thing
+// respSet.Close does), gives Close the chance to reach CloseSend (bounded wait: Close as written
+// only gets there after the receive goroutine is done, so the bound just elapses), and only then
+// hands out the in-flight series. Then io.EOF.
+type tdStream struct {
+	grpc.ClientStream
+	ctx       context.Context
+	immediate []*storepb.SeriesResponse
+	inflight  *storepb.SeriesResponse
+
+	mtx       sync.Mutex
+	recvCalls int
+	recvEnded bool
+
+	once        sync.Once
+	closeSendc  chan struct{}
+	onCloseSend func(recvEnded bool)
+}
+
+func (c *tdStream) Context() context.Context { return c.ctx }
+func (c *tdStream) CloseSend() error {
+	c.once.Do(func() {
+		c.mtx.Lock()
+		ended := c.recvEnded
+		c.mtx.Unlock()
+		c.onCloseSend(ended)
+		close(c.closeSendc)
+	})
+	return nil
+}
+func (c *tdStream) Recv() (*storepb.SeriesResponse, error) {
+	c.mtx.Lock()
+	n := c.recvCalls
+	c.recvCalls++
+	c.mtx.Unlock()
+	switch {
+	case n < len(c.immediate):
+		return c.immediate[n], nil
+	case n == len(c.immediate):
+		<-c.ctx.Done()
+		select {
+		case <-c.closeSendc:
+		case <-time.After(250 * time.Millisecond):
+		}
+		return c.inflight, nil
+	}
+	c.mtx.Lock()
+	c.recvEnded = true
+	c.mtx.Unlock()
+	return nil, io.EOF
+}
+
+type tdStoreClient struct {
+	storepb.StoreClient
+	series func(ctx context.Context) (storepb.Store_SeriesClient, error)
+}
+
+func (c *tdStoreClient) Series(ctx context.Context, _ *storepb.SeriesRequest, _ ...grpc.CallOption) (storepb.Store_SeriesClient, error) {
+	return c.series(ctx)
+}
+
+type tdServer struct {
+	storepb.Store_SeriesServer
+	send func(*storepb.SeriesResponse) error
+}
+
+func (s *tdServer) Send(r *storepb.SeriesResponse) error { return s.send(r) }
+func (s *tdServer) Context() context.Context             { return context.Background() }
+
+func tdSeries(v string) *storepb.SeriesResponse {
+	return storepb.NewSeriesResponse(&storepb.Series{Labels: []labelpb.ZLabel{{Name: "a", Value: v}, {Name: "ext", Value: "1"}}})
+}
+
+func runTeardown(in input) (common.Case, error) {
+	var c common.Case
+	runtime.GOMAXPROCS(1)
+	defer debug.SetGCPercent(debug.SetGCPercent(-1))
+	var p *store.ProxyStore
+	var taken *[]byte
+	early, hooked := false, false
+	hook := func(recvEnded bool) {
+		// the next request arrives right now: it takes a buffer out of the proxy's pool like ShardInfo.Matcher does
+		hooked = true
+		early = !recvEnded
+		b := p.VerifC17TakeBuffer()
+		*b = (*b)[:0]
+		taken = b
+	}
+	mk := func(name string, series func(ctx context.Context) (storepb.Store_SeriesClient, error)) store.Client {
+		return &storetestutil.TestClient{StoreClient: &tdStoreClient{series: series}, Name: name,
+			ExtLset: []labels.Labels{labels.FromStrings("ext", "1")}, MinTime: 0, MaxTime: 100, Shardable: false}
+	}
+	var imm []*storepb.SeriesResponse
+	for i := 0; i < in.Immediate; i++ {
+		imm = append(imm, tdSeries(fmt.Sprintf("%02d", i+1)))
+	}
+	cl1 := mk("store-1", func(ctx context.Context) (storepb.Store_SeriesClient, error) {
+		return &tdStream{ctx: ctx, immediate: imm, inflight: tdSeries("in-flight"), closeSendc: make(chan struct{}), onCloseSend: hook}, nil
+	})
+	req := &storepb.SeriesRequest{MinTime: 0, MaxTime: 100,
+		Matchers:                []storepb.LabelMatcher{{Type: storepb.LabelMatcher_RE, Name: "a", Value: ".+"}},
+		PartialResponseDisabled: true, PartialResponseStrategy: storepb.PartialResponseStrategy_ABORT,
+		ShardInfo:               &storepb.ShardInfo{TotalShards: 1, ShardIndex: 0, By: true, Labels: []string{"a"}}}
+	var err error
+	if in.Lazy {
+		// the downstream client goes away: Send fails on the first series
+		p = store.NewProxyStore(nil, nil, func() []store.Client { return []store.Client{cl1} }, component.Query, labels.EmptyLabels(), 0, store.LazyRetrieval, store.WithoutDedup())
+		err = p.Series(req, &tdServer{send: func(*storepb.SeriesResponse) error { return fmt.Errorf("client went away") }})
+	} else {
+		// a second store cannot be reached and partial responses are disabled
+		cl2 := mk("store-2", func(context.Context) (storepb.Store_SeriesClient, error) { return nil, fmt.Errorf("connection refused") })
+		p = store.NewProxyStore(nil, nil, func() []store.Client { return []store.Client{cl1, cl2} }, component.Query, labels.EmptyLabels(), 0, store.EagerRetrieval)
+		err = p.Series(req, &tdServer{send: func(*storepb.SeriesResponse) error { return nil }})
+	}
+	if err == nil {
+		return c, fmt.Errorf("teardown set-up: Series was expected to fail")
+	}
+	if !hooked {
+		return c, fmt.Errorf("teardown set-up: CloseSend was never called")
+	}
+	written := len(*taken) != 0
+	c.Coq = common.App("CTeardown", common.Bool(in.Lazy), common.Nat(in.Immediate), common.Bool(early), common.Bool(written))
+	c.Obs = map[string]any{"close_send_before_receiver_ended": early, "taken_buffer_content": string(*taken)}
+	c.Class = "teardown/eager"
+	if in.Lazy {
+		c.Class = "teardown/lazy"
+	}
+	c.Nontrivial = true
+	if written {
+		c.GoPred = fmt.Sprintf("the buffer taken from the proxy's pool by the next request was written by the receive goroutine of the previous, still running request: %q", string(*taken))
+		c.Sig = "buffer-released-before-receiver-stopped"
+	}
+	return c, nil
 }
 
 func threadsCoq(ths [][]pop) string {
@@ -848,6 +1038,17 @@ func gen(r *rand.Rand, tier string, n int) []any {
 			if r.Intn(2) == 0 {
 				in.Park = getSteps[0]
 			}
+		}
+		out = append(out, in)
+	}
+	nTd := 6
+	if tier == "thorough" {
+		nTd = 40
+	}
+	for i := 0; i < nTd; i++ {
+		in := input{Kind: "teardown", Lazy: i%2 == 0, Immediate: r.Intn(4)}
+		if in.Lazy && in.Immediate == 0 {
+			in.Immediate = 1 + r.Intn(3) // the failing Send needs a first series
 		}
 		out = append(out, in)
 	}
